@@ -23,8 +23,11 @@ ASSUMPTIONS = [
     'closed form evaluated with mpmath at 40 digits on the exact binary values of the float arguments',
     'the back-conversion is judged by re-projecting its result with the oracle (no reference inverse needed)',
     'continuum decided on a lattice (structural points + regular fill + seed-shifted fill)',
+    'arbitrary (a, 1/f): 1/f from 150 (the flattest body of C01) up to infinity (the sphere); flatter bodies are not explored',
 ]
 HEIGHTS = [-1e4, 0.0, 1e3, 1e5, 4e7]
+# values that software likes to reserve for 'no data': inside [-1e4, 4e7] they are heights like any other
+SENTINEL_HEIGHTS = [-9999.0, -999.0, -99.0, -1.0, 9999.0, 99999.0, 32767.0, 65535.0]
 
 
 def lats(tier, seed):
@@ -39,9 +42,9 @@ def lons(tier, seed):
 
 def gen_geo(tier, seed):
     lo = lons(tier, seed)
-    for ell in cfg.E9 + cfg.TWINS:
+    for ell in cfg.E9 + cfg.TWINS + cfg.NEAR_SPHERES:
         for lat in lats(tier, seed):
-            for h in HEIGHTS:
+            for h in HEIGHTS + (SENTINEL_HEIGHTS if ell in ('grs80', 'ans', 'sphere') and abs(lat) in (0.0, 30.0, 45.0, 60.0, 90.0) else []):
                 yield {'ell': ell, 'lat': lat, 'h': h, 'lons': lo, 'kind': 'float'}
     for ell in ('grs80', 'intl24'):
         for lat in (-89.5, -37.8, -0.3, 0.0, 0.3, 60.25, 90.0):
@@ -148,7 +151,7 @@ def gen_cart(tier, seed):
     ps = uniq(ps)
     zs = ZS + ([] if tier == 'quick' else [10.0, 1e5, 1e6, 5e6, 1e7, 3e7])
     azs = AZ + fill(7.0, 359.0, 60.0 if tier == 'quick' else 15.0, seed, 13, include_shift=False)
-    for ell in cfg.E9 + cfg.TWINS[:2]:
+    for ell in cfg.E9 + cfg.TWINS[:2] + cfg.NEAR_SPHERES:
         for p in ps:
             for z in zs:
                 for sz in (1, -1):
